@@ -295,6 +295,8 @@ def tasks(tier, seed):
     for n in (1, 3):
         T.append(Task('reconstruct/n%d' % n, h_reconstruct, (n,), tier='B'))
     T.append(Task('rt/real-seeds', rt_real_seeds, (seed, 60 if tier == 'quick' else 600), tier='R', kind='rt'))
+    from specs import reuse as _reuse
+    T.append(Task('rt/object-reuse', _reuse.rt_planner_reuse, ('C05', ['AStarSearch', 'BreadthFirstSearch'], seed), tier='R', kind='rt', note='planner objects, earlier results and model objects across calls'))
     return T
 
 
